@@ -11,6 +11,7 @@ use std::io::Cursor;
 use std::sync::atomic::{AtomicUsize, Ordering};
 
 mod admission;
+mod agones;
 mod filters;
 mod fixedloc;
 mod cipher;
@@ -79,6 +80,7 @@ fn main() {
         "fixed_locale" => fixedloc::sweep(seed),
         "filters" => filters::sweep(seed),
         "admission" => admission::sweep(seed),
+        "agones" => agones::histories(seed),
         "limits" => conn::limits(seed),
         "session" => conn::session(seed),
         "enc_response" => conn::enc_response(seed),
